@@ -352,6 +352,80 @@ func craftedInputs() [][]byte {
 		}
 		out = append(out, b)
 	}
+	// one generic map referred to from one-element LISTS of typed maps in 6000 objects (index 173), and from
+	// 3000 small generic maps that 3000 objects refer to through a map-of-maps field (index 174): a conversion
+	// is made once per (map, type), whichever list or map holds the reference
+	wint := func(k int) []byte {
+		if k < 2048 {
+			return cint(k)
+		}
+		return []byte{byte(0xd4 + k>>16), byte(k >> 8), byte(k)}
+	}
+	{
+		b := []byte{0x57, 'H'}
+		for i := 0; i < 6000; i++ {
+			b = append(append(b, wint(i)...), 0x91)
+		}
+		b = append(b, 'Z')
+		b = append(b, hspecHx("C x08 SlOfMaps x92 x01 a x01 l")...)
+		for i := 0; i < 6000; i++ {
+			b = append(b, 0x60, 0x01, 'x', 0x79, 0x51, 0x91)
+		}
+		out = append(out, append(b, 'Z'))
+	}
+	{
+		b := []byte{0x57, 'H'}
+		for i := 0; i < 3000; i++ {
+			b = append(append(b, wint(i)...), 0x91)
+		}
+		b = append(b, 'Z')
+		for i := 0; i < 3000; i++ {
+			b = append(b, 'H', 0x91, 0x51, 0x91, 'Z')
+		}
+		b = append(b, hspecHx("C x08 MpOfMaps x92 x01 a x01 m")...)
+		for i := 0; i < 3000; i++ {
+			b = append(append(b, 0x60, 0x01, 'x', 0x51), wint(2+i)...)
+		}
+		out = append(out, append(b, 'Z'))
+	}
+	// a chain of 40 / 400 objects linked through a struct field, the innermost one damaged (indexes 175, 176):
+	// reporting the failure costs what the message cost, not a multiple of it per level
+	for _, depth := range []int{40, 400} {
+		b := hspecHx("C x04 Node x93 x03 val x04 next x04 prev")
+		for i := 0; i < depth; i++ {
+			b = append(b, 0x60, 0x91)
+		}
+		b = append(b, 'T', 'N') // a boolean where the next node should be
+		out = append(out, b)
+	}
+	// input 157 again with the referring objects as the VALUES of an enclosing map (index 177): what is
+	// remembered about a conversion must not depend on whether some wire map is open
+	{
+		b := []byte{0x57, 'H'}
+		for i := 0; len(b) < 20000; i++ {
+			b = append(b, 3, 'a'+byte(i%26), 'a'+byte(i/26%26), 'a'+byte(i/676%26), 0x91)
+		}
+		b = append(b, 'Z')
+		b = append(b, hspecHx("C x08 MpStrI32 x91 x01 m")...)
+		b = append(b, 'H')
+		for i := 0; len(b) < 45000; i++ {
+			b = append(append(b, wint(i)...), 0x60, 0x51, 0x91)
+		}
+		out = append(out, append(b, 'Z', 'Z'))
+	}
+	// 9000 references to one generic map of 6000 entries as the elements of a TYPED list of maps (index 178)
+	{
+		b := []byte{0x57, 'H'}
+		for i := 0; i < 6000; i++ {
+			b = append(append(b, wint(i)...), 0x91)
+		}
+		b = append(b, 'Z', 0x55)
+		b = append(b, hspecHx("x0f [map[int32int32")...)
+		for i := 0; i < 9000; i++ {
+			b = append(b, 0x51, 0x91)
+		}
+		out = append(out, append(b, 'Z', 'Z'))
+	}
 	return out
 }
 
